@@ -458,12 +458,48 @@ def concretize(v, model):
     if isinstance(v, VOpaque):
         return {"__opaque__": v.name, "id": str(ev(v.z))}
     if isinstance(v, VSet):
-        return {"__set__": str(ev(v.z))}
+        out = {"__set__": str(ev(v.z))}
+        try:
+            keys, dflt = _array_true_keys(ev(v.z))
+            if not dflt:
+                out["members"] = [concretize(from_z3(k, v.elem), model) for k in keys]
+        except Exception:
+            pass
+        return out
     if isinstance(v, VMap):
-        return {"__map__": str(ev(v.present))}
+        out = {"__map__": str(ev(v.present))}
+        try:
+            keys, dflt = _array_true_keys(ev(v.present))
+            if not dflt:
+                out["items"] = [[concretize(from_z3(k, v.kt), model),
+                                 concretize(from_z3(z3.simplify(ev(z3.Select(v.val, k))), v.vt), model)] for k in keys]
+        except Exception:
+            pass
+        return out
     if isinstance(v, VDict):
         return {k: concretize(x, model) for k, x in v.d.items()}
     return {"__unknown__": repr(v)}
+
+
+def _array_true_keys(a):
+    """explicit keys mapped to True in an evaluated Array(K -> Bool) model value (Store chain over a constant array)"""
+    stores = []
+    a = z3.simplify(a)
+    while z3.is_store(a):
+        stores.append((a.arg(1), a.arg(2)))
+        a = a.arg(0)
+    if not z3.is_K(a):
+        raise ValueError("array model is not a Store chain")
+    dflt = z3.is_true(a.arg(0))
+    seen, keys = set(), []
+    for k, val in stores:            # outermost store first: it wins
+        ks = str(k)
+        if ks in seen:
+            continue
+        seen.add(ks)
+        if z3.is_true(val):
+            keys.append(k)
+    return keys, dflt
 
 
 def json_value(z, model, depth=0):
